@@ -40,7 +40,7 @@ MANIFEST = {
 }
 
 WRITERS = ["SRTWriter", "WebVTTWriter", "MicroDVDWriter", "DFXPWriter", "SinglePositioningDFXPWriter", "LegacyDFXPWriter", "SAMIWriter", "SCCWriter"]
-SETS = ["plain", "spans", "unbalanced", "px-novideo", "two-langs", "empty", "scc", "styled", "unbalanced-two", "unsorted", "spans-redefined", "two-layouts", "sami-read", "dfxp-read", "cells", "cells-swapped"]
+SETS = ["plain", "spans", "unbalanced", "px-novideo", "two-langs", "empty", "scc", "styled", "unbalanced-two", "unsorted", "spans-redefined", "two-layouts", "sami-read", "dfxp-read", "cells", "cells-swapped", "lang-px"]
 SEEDS = {"quick": ["0", "5"], "thorough": ["0", "1", "2", "3", "5", "8", "13", "21"]}
 # first writes of every (writer, set, options) are repeated under many more hash seeds (one cheap process per seed)
 SWEEP = {"quick": [str(i) for i in range(1, 13)], "thorough": [str(i) for i in range(1, 65)]}
@@ -92,6 +92,10 @@ def make_set(name):
     if name == "px-novideo":
         L = Layout(origin=Point(Size(20, UnitEnum.PIXEL), Size(30, UnitEnum.PIXEL)))
         return CaptionSet({"en-US": CaptionList([cap(0, [T("first")]), cap(1, [T("positioned in px")], layout_info=L)])})
+    if name == "lang-px":
+        # the language-level layout is absolute (needs a video size to be relativized); captions inherit it
+        L = Layout(origin=Point(Size(64, UnitEnum.PIXEL), Size(36, UnitEnum.PIXEL)), extent=Stretch(Size(320, UnitEnum.PIXEL), Size(72, UnitEnum.PIXEL)))
+        return CaptionSet({"en-US": CaptionList([cap(0, [T("inherits")]), cap(1, [T("too")])], layout_info=L)})
     if name == "two-layouts":
         # one caption introduces two layouts at once (region numbering), one of them needs fitting
         la = Layout(origin=Point(Size(10, P), Size(10, P)))
@@ -124,11 +128,15 @@ def make_set(name):
     if name == "dfxp-read":
         doc = ('<?xml version="1.0" encoding="utf-8"?><tt xml:lang="en" xmlns="http://www.w3.org/ns/ttml" xmlns:tts="http://www.w3.org/ns/ttml#styling"><head><styling>'
                '<style xml:id="s1" tts:color="red" tts:fontStyle="italic" tts:fontFamily="Arial"/><style xml:id="s2" tts:textAlign="center" tts:fontSize="10px"/><style xml:id="s3" tts:fontWeight="bold"/></styling>'
-               '<layout><region xml:id="r1" tts:origin="10% 20%" tts:extent="30% 40%" tts:padding="1% 2% 3% 4%" tts:textAlign="right" tts:displayAlign="before"/><region xml:id="r2" tts:origin="50% 60%"/></layout></head><body><div xml:lang="en">'
+               '<layout><region xml:id="r1" tts:origin="10% 20%" tts:extent="30% 40%" tts:padding="1% 2% 3% 4%" tts:textAlign="right" tts:displayAlign="before"/><region xml:id="r2" tts:origin="50% 60%"/>' + "".join(f'<region xml:id="{rid}" tts:origin="{5 + 3 * k}% 30%"/>' for k, rid in enumerate(["top", "low", "a", "bb", "left", "zone9"])) + '</layout></head><body><div xml:lang="en">'
                '<p begin="00:00:01.000" end="00:00:02.000" region="r1" style="s1 s2 s3">one <span tts:fontStyle="italic" tts:color="blue" tts:textDecoration="underline" region="r2">two</span></p>'
                '<p begin="00:00:03.000" end="00:00:04.000" style="s2">three<br/>four</p>'
                # no region on the paragraph; its descendants name two different ones
-               '<p begin="00:00:05.000" end="00:00:06.000"><span region="r1">five</span> <span region="r2">six</span></p></div></body></tt>')
+               '<p begin="00:00:05.000" end="00:00:06.000"><span region="r1">five</span> <span region="r2">six</span></p>'
+               # no region on the paragraph; one descendant names a region, the others (a <br/>, a plain span) none -
+               # spelled with several region ids so that a hash-dependent choice shows under few seeds
+               + "".join(f'<p begin="00:00:{7 + k:02d}.000" end="00:00:{7 + k:02d}.500">t{k} <span region="{rid}">in {rid}</span><br/><span>more</span></p>' for k, rid in enumerate(["r1", "r2", "top", "low", "a", "bb", "left", "zone9"]))
+               + '</div></body></tt>')
         return pycaption.DFXPReader().read(doc)
     if name == "styled":
         L1 = Layout(origin=Point(Size(10, P), Size(10, P)), alignment=Alignment(HorizontalAlignmentEnum.CENTER, VerticalAlignmentEnum.TOP))
